@@ -123,10 +123,26 @@ def gen_gwcs_geom(rng, t, vacorr=None):
     roll = rng.choice([0.0, dyr(rng, -180, 180, 4), 115.0])
     return dict(kind='gwcs', pointing=kind, crval=[ra, dec], v2ref=v2, v3ref=v3, roll=roll, cd=cd,
                 crpix=[dyr(rng, 300, 700, 1), dyr(rng, 700, 1300, 1)],
-                vacorr=bool(rng.random() < 0.6) if vacorr is None else vacorr, shape=[1024, 2048])
+                vacorr=bool(rng.random() < 0.6) if vacorr is None else vacorr, shape=[1024, 2048],
+                va_scale=rng.choice([1.0, 1.0, 1.00008, 0.99995]))
 
 
 def build_gwcs(I, g):
+    va = g.get('va_scale', 1.0)
+    if g['vacorr'] and va != 1.0:
+        # a NON-trivial velocity-aberration step v2v3 -> v2v3vacorr (uniform scale about the reference point), as
+        # real JWST pipelines have; the repository's mock uses the identity there
+        import gwcs
+        from astropy.modeling.models import Scale, Shift
+        from tweakwcs.tests.helper_correctors import make_mock_jwst_pipeline
+        pipeline = make_mock_jwst_pipeline(g['v2ref'], g['v3ref'], g['roll'], list(g['crpix']),
+                                           [[g['cd'], 0.0], [0.0, g['cd']]], list(g['crval']), True)
+        step = ((Shift(-g['v2ref']) & Shift(-g['v3ref'])) | (Scale(va) & Scale(va)) |
+                (Shift(g['v2ref']) & Shift(g['v3ref'])))
+        step.name = 'v2v3vacorr'
+        assert pipeline[1][0].name == 'v2v3' and pipeline[2][0].name == 'v2v3vacorr'
+        pipeline[1] = (pipeline[1][0], step)
+        return gwcs.wcs.WCS(pipeline)
     return I['mock'](v2ref=g['v2ref'], v3ref=g['v3ref'], roll=g['roll'], crpix=list(g['crpix']),
                      cd=[[g['cd'], 0.0], [0.0, g['cd']]], crval=list(g['crval']), enable_vacorr=g['vacorr'])
 
